@@ -404,7 +404,7 @@ theorem lockstepTick_specD (s s' : P2P) (gh : DGhost) (t : TLState) (now : Nat) 
 theorem remoteInput_lkD (s s' : P2P) (gh : DGhost) (t : TLState) (now : Nat) (inp : PlayerInput) (player : Nat)
     (handles : List Nat) (addr : Nat) (h : LkInvD s gh t) (hnl : player ∉ s.localPlayerHandles) (h0 : 0 ≤ inp.frame)
     (hev : s.handleEventCore now (.input inp player) handles addr = .ok s') : ∃ gh', LkInvD s' gh' t := by
-  obtain ⟨gh', st0', h', _, _, hcur, _, _, hnq, hdf, hgrow, hflags, hdead⟩ :=
+  obtain ⟨gh', st0', h', _, _, hcur, _, _, hnq, hdf, hgrow, hflags, hdead, _⟩ :=
     remoteInput_specD s s' gh t [] _ now inp player handles addr h.sess hnl h0 hev
   have hidle := remoteInput_idle s s' now inp player handles addr h.idle hev
   have hdf' : s'.disconnectFrame = NULL_FRAME := by rw [hdf]; exact h.df
@@ -533,7 +533,7 @@ theorem LkInvD_step (x y : P2P × TLState) (h : ∃ gh, LkInvD x.1 gh x.2) (hs :
       have := pure_ok hcall
       simp only [Prod.mk.injEq] at this
       rw [← this.1]
-      obtain ⟨h', hsy, _, _, hmono, _, hlast, hdf, hoth⟩ := drop_specD s s1 gh t [] _ now handle addr _ ep h.sess hpt hep hrem
+      obtain ⟨h', hsy, _, _, hmono, _, hlast, hdf, hoth, _, _⟩ := drop_specD s s1 gh t [] _ now handle addr _ ep h.sess hpt hep hrem
         ⟨hlt, hc', rfl⟩ hl0 hsame hdrop
       exact ⟨gh, drop_lkD s s1 gh t ep.handles _ h h' hsy hdf hmono hlast hoth hrem hsame ⟨handle, hin, hlt, hc'⟩⟩
   | dropEvent s s' t now addr hs ep L hne hpt hep hsub hrem hlt hconn hL0 hsame hev =>
@@ -545,7 +545,7 @@ theorem LkInvD_step (x y : P2P × TLState) (h : ∃ gh, LkInvD x.1 gh x.2) (hs :
     have cfg : DropCfg s hs addr ep.handles L s.localConnectStatus :=
       ⟨hpt, ⟨ep, hep, rfl⟩, hsub, hrem, hlt,
         fun x hx => ⟨hconn x hx, hsame x (hsub x hx) (hlt x hx).2 (hconn x hx)⟩, hL0, hsame⟩
-    obtain ⟨h', hsy, _, _, hmono, _, hlast, hdf, hoth⟩ := dropFold_specD gh t [] _ now addr ep.handles L hs s s1 h.sess cfg hfold
+    obtain ⟨h', hsy, _, _, hmono, _, hlast, hdf, hoth, _, _⟩ := dropFold_specD gh t [] _ now addr ep.handles L hs s s1 h.sess cfg hfold
     obtain ⟨x0, hx0⟩ := List.exists_mem_of_ne_nil hs hne
     have hl := drop_lkD s s1 gh t ep.handles L h h' hsy hdf hmono hlast hoth hrem hsame
       ⟨x0, hsub x0 hx0, (hlt x0 hx0).2, hconn x0 hx0⟩
@@ -562,8 +562,8 @@ theorem LkInvD_run (x y : P2P × TLState) (h : ∃ gh, LkInvD x.1 gh x.2) (hr : 
 theorem LkInvD_init (s : P2P) (R : Nat → List (Input × InputStatus)) (n : Nat)
     (hq : s.sync.queues = List.replicate n InputQueue.new) (hst : s.localConnectStatus = List.replicate n {})
     (hc : s.sync.currentFrame = 0) (hdf : s.disconnectFrame = NULL_FRAME) :
-    ∃ gh, LkInvD s gh ⟨0, R⟩ := by
-  refine ⟨_, ⟨SessInvD_of_SessInv s _ ⟨0, R⟩ [] (SessInv_init s R n hq hst hc) hdf, ?_, hdf, ?_, ?_⟩⟩
+    LkInvD s ⟨fun _ => {}, fun _ => [], fun p f => ((R f).getD p default).1, fun _ => False⟩ ⟨0, R⟩ := by
+  refine ⟨SessInvD_of_SessInv s _ ⟨0, R⟩ [] (SessInv_init s R n hq hst hc) hdf, ?_, hdf, ?_, ?_⟩
   · intro p hp
     have : rget s.sync.queues p = InputQueue.new := by
       rw [hq] at hp ⊢
